@@ -205,6 +205,10 @@ __strft_card(
 {
 	size_t res = 0;
 
+	if (UNLIKELY(bsz < 4U)) {
+		/* no room for the widest thing we put directly */
+		return 0U;
+	}
 	switch (s.spfl) {
 	default:
 	case DT_SPFL_UNK:
